@@ -173,21 +173,24 @@ def check_reported_objective(ctx) -> None:
 
 def run(ctx) -> None:
     ctx.rule("C17.orient", "T5: loopless_solution pins the objective according to its direction and reports the pinned value", floor=3)
-    ctx.rule("C17.cyclefree", "T5/finite orderings: _add_cycle_free keeps signs, caps magnitudes, fixes boundary fluxes, minimises the right variable", floor=3)
+    ctx.rule("C17.cyclefree", "T5/finite orderings: _add_cycle_free keeps signs, caps magnitudes, fixes boundary fluxes, minimises the right variable", floor=3, hard=0)
     ctx.rule("C17.capture", "T6: old objective read before it is replaced", floor=1)
     ctx.rule("C17.nullspace", "T5: add_loopless constructs (coefficient comprehension, internal set, big-M, on/off, delta_g)", floor=5)
     ctx.rule("C17.magnitude", "T5: cut-offs are applied to magnitudes", floor=4)
     ctx.rule("C17.formulation", "formulation: loopless_solution poses the documented cycle-removal problem (oracle evaluation)", floor=9)
+    n0 = len(ctx.findings)
     try:
         loopform.check_loopless_solution(ctx, "C17.formulation")
     except AnalysisError as exc:
         ctx.defer(str(exc))
+    solution_failed = len(ctx.findings) > n0 or bool(ctx.deferred)
     n_before = len(ctx.findings)
     ctx.guard(loopform.check_add_loopless, ctx, "C17.formulation")
     formulation_failed = len(ctx.findings) > n_before or bool(ctx.deferred)
     fa.check_orientation(ctx, "C17.orient", [("cobra.flux_analysis.loopless", "loopless_solution")], formulation_rule={"loopless_solution": "C17.formulation"})
     check_reported_objective(ctx)
-    ctx.guard(fa.check_cycle_free, ctx, "C17.cyclefree")
+    # per-reaction reading of _add_cycle_free: explains; the formulation clause evaluates the function and decides
+    ctx.explain(solution_failed, fa.check_cycle_free, ctx, "C17.cyclefree")
     fa.check_capture(ctx, "C17.capture", [("cobra.flux_analysis.loopless", "loopless_solution")])
     # the structural reading of add_loopless explains, the evaluated formulation clause decides: a structural report
     # is issued only when the formulation is found wrong as well (or could not be evaluated)
